@@ -1,4 +1,3 @@
 SPECIFICATION Spec
-INVARIANT ContractHolds
 POSTCONDITION Accepted
 CHECK_DEADLOCK FALSE
